@@ -536,7 +536,7 @@ theorem C02_inet_mapped (b : Bytes) (h16 : b.length = 16) (hz : b.take 10 = List
 /-- the values for which the same-type round trip is claimed, built over the scalar triples of `Leaf`: pointers and
     pointers to pointers (nil, or a chain down to a value that is not written as null), lists / sets bound to slices and
     arrays, maps (a Go map holds each key once), nil slices / maps, tuples bound to structs, slices, arrays and
-    []interface{} — nested to ANY depth.  Under protocol ≤ 2 the
+    []interface{}, UDTs bound to map[string]interface{} — nested to ANY depth.  Under protocol ≤ 2 the
     elements must not be null (the 2-byte framing has no null element: KF-C02-3). -/
 inductive Clean (p : Nat) : CqlTy → GoTy → GoVal → Prop
   | leaf {t ty g} : Leaf t ty g → Clean p t ty g
@@ -556,6 +556,10 @@ inductive Clean (p : Nat) : CqlTy → GoTy → GoVal → Prop
   | tuple (fs : List TField) : (∀ f, f ∈ fs → f.kind ≠ .null → Clean p f.t (goTypeOf f.t) f.v) →
       (∀ f, f ∈ fs → f.side p) →
       Clean p (.tuple (fs.map (·.t))) (.struct (fs.map (·.ty))) (.struct (fs.map (·.val)))
+  /-- UDT ↔ map[string]interface{} holding a goType(field) value for every field of the UDT (distinct names) -/
+  | udtMap (fl : List UField) : (fl.map (·.name)).Nodup → fl ≠ [] →
+      (∀ f, f ∈ fl → Clean p f.t (goTypeOf f.t) f.v) → (∀ f, f ∈ fl → Small p f.t f.v) →
+      Clean p (.udt (fl.map (·.name)) (fl.map (·.t))) .udtmap (.udtmap false (fl.map (·.name)) (fl.map (·.v)))
   /-- tuple ↔ []G / [n]G: every field of the one Go type `g` (goType(elem) for every element, or a pointer to it) -/
   | tupleSlice (fs : List TField) (g : GoTy) : (∀ f, f ∈ fs → f.kind ≠ .null → Clean p f.t (goTypeOf f.t) f.v) →
       (∀ f, f ∈ fs → f.side p) → (∀ f, f ∈ fs → f.ty = g) → (g == GoTy.iface) = false →
@@ -584,6 +588,7 @@ theorem C02_nested_roundtrip (p : Nat) (t : CqlTy) (ty : GoTy) (g : GoVal) (h : 
   | map _ _ hnn hd ihk ihv => exact rt_map p _ _ _ _ _ (fun kv hkv => ⟨ihk kv hkv, ihv kv hkv⟩) hnn hd
   | nilMap kt vt gk gv => exact rt_nil_map p kt vt gk gv
   | tuple fs _ hside ih => exact rt_tuple_struct p _ _ _ (fieldsRT_of p fs ih hside)
+  | udtMap fl hnd hne _ hsm ih => exact rt_udtmap p fl hnd hne (fun f hf => ⟨ih f hf, hsm f hf⟩)
   | tupleSlice fs g _ hside hty hg ih =>
     have h := fieldsRT_of p fs ih hside
     rw [map_ty_replicate fs g hty] at h
@@ -688,6 +693,17 @@ example : Clean 4 (.tuple [.int, .int]) (.slice .iface) (.ifaces [.int .int fals
   · intro f hf
     simp at hf
     rcases hf with rfl | rfl <;> rfl
+
+/-- non-vacuity: udt<a text, b text> ↔ map[string]interface{}{"a": "A", "b": ""} -/
+example : Clean 4 (.udt ["a", "b"] [.text, .text]) .udtmap (.udtmap false ["a", "b"] [.str false [65], .str false []]) := by
+  refine Clean.udtMap [⟨"a", .text, .str false [65]⟩, ⟨"b", .text, .str false []⟩] (by decide) (by simp) ?_ ?_
+  · intro f hf
+    simp at hf
+    rcases hf with rfl | rfl <;> exact .leaf (.str (Or.inr (Or.inl rfl)) _ _)
+  · intro f hf b hb
+    simp at hf
+    rcases hf with rfl | rfl <;>
+      (simp [marshal, marshalScalar, marshalVarcharColumn] at hb; subst hb; simp)
 
 /-- TUPLE step (element theorems as hypotheses, `FieldsRT`): a struct bound to tuple<T1, …, Tn> whose i-th field has
     type goType(Ti) — holding a value whose round trip holds — or *goType(Ti) — nil, or pointing to such a value that is
